@@ -293,26 +293,6 @@ Proof.
 Qed.
 
 (* ---- one step of the content reading ---- *)
-Inductive c16_step_res :=
-| CsEnd | CsInvalid | CsStep (toks : list c16_sem_token) (rest : list N).
-
-Definition c16_step (inp : list N) : c16_step_res :=
-  match spec_next inp with
-  | LexEnd => CsEnd
-  | LexInvalid => CsInvalid
-  | LexTok t rest =>
-      match t with
-      | PKeyword w =>
-          if list_eqb N.eqb w c16_kw_ID then
-            match c16_after_ID rest with
-            | Some (data, rest') => CsStep [CsOp w; CsImage data] rest'
-            | None => CsInvalid
-            end
-          else CsStep [CsOp w] rest
-      | _ => CsStep [c16_sem_of t] rest
-      end
-  end.
-
 Lemma sem_fuel_step f inp acc :
   c16_sem_fuel (S f) inp acc =
   match c16_step inp with
